@@ -17,7 +17,7 @@ RULE = ("cases = one entity declaration (CREATE TYPE AS ENUM/OBJECT/TABLE, CREAT
         "every name form (plain, qualified, delimited), enum lists of 1..12 values, 1..6 attributes/columns, alone or between "
         "tables; for types, followed by a table using the type at first/middle/last column with options. Exhaustive option "
         "products first, then seeded random. Non-trivial = every case (each compares a full entity); distinct = distinct DDL text."
-        " Added after seeded defects: keyword-case variants of the declarations the pinned tree recognises case-insensitively, keyword-shaped type names, CREATE DOMAIN AS ENUM, the CREATE TYPE property-list form, several declarations per script, run(); run(group_by_type); run() on one object, OBJECT attributes with type parameters, comments, enum values, array and two-word types.")
+        " Added after seeded defects: keyword-case variants of the declarations the pinned tree recognises case-insensitively, keyword-shaped type names, CREATE DOMAIN AS ENUM, the CREATE TYPE property-list form, several declarations per script, run(); run(group_by_type); run() on one object, OBJECT attributes with type parameters, comments, enum values, array and two-word types, type names containing type keywords, BigQuery back-quoted schema paths, every 4th case also with normalize_names=True (same entities minus one pair of delimiters per name).")
 ASSUMPTIONS = ["keywords are written in upper case, except that tablespace / enum / database / domain declarations are also given in lower, capitalised and random keyword case (recognised case-insensitively on the pinned tree; the tablespace kind word and ENUM are reported as written); keyword case of the other declarations is not quantified by the property and leaks into their output on the pinned tree, so it is not varied",
                "a qualified schema name a.b is reported as project=a, schema_name=b (calibrated convention); AUTHORIZATION key looked up case-insensitively",
                "domain base types are one word with a size (two-word base types are not supported by the grammar and not named)"]
@@ -147,7 +147,7 @@ def gen_schema(rng, ine=None, auth=None, com=None, nameform=None):
     ine = rng.random() < 0.5 if ine is None else ine
     auth = rng.choice([None, "joe", "Admin_1", '"Role"']) if auth is None else (auth or None)
     com = rng.choice([None, "sp", "eq", "eqns"]) if com is None else (com or None)
-    nameform = nameform or rng.choice(["plain", "plain", "dq", "qual", "auth_only"])
+    nameform = nameform or rng.choice(["plain", "plain", "dq", "qual", "auth_only", "bq_path"])
     exp = {}
     if ine:
         exp["if_not_exists"] = True
@@ -162,6 +162,13 @@ def gen_schema(rng, ine=None, auth=None, com=None, nameform=None):
         nm = a + "." + b
         exp["schema_name"] = b
         exp["project"] = a
+    elif nameform == "bq_path":
+        # BigQuery spelling: the whole path between one pair of back quotes (reported without them in both normalize_names settings)
+        a, b = rng.choice(["my-project", "proj", "p-1"]), rng.choice(["sales_data", "ds", "analytics"])
+        nm = "`%s.%s`" % (a, b)
+        exp["schema_name"] = b
+        exp["project"] = a
+        auth = None
     else:  # CREATE SCHEMA AUTHORIZATION joe
         if not auth:
             auth = "joe"
@@ -300,6 +307,17 @@ def norm_entity(e):
     return out
 
 
+def strip_names(o):
+    """expected effect of normalize_names=True on a result: "x" / `x` / [x] -> x in every name (quoted literals '..' are values, not names)"""
+    if isinstance(o, dict):
+        return {strip_names(k) if isinstance(k, str) else k: strip_names(v) for k, v in o.items()}
+    if isinstance(o, list):
+        return [strip_names(x) for x in o]
+    if isinstance(o, str) and not o.startswith("'"):
+        return re.sub(r'"([^"]+)"|`([^`]+)`|\[([^\[\]]+)\]', lambda m: m.group(1) or m.group(2) or m.group(3), o)
+    return o
+
+
 def check_case(ctx, case):
     ctx.evaluated()
     ctx.nontrivial_case(digest(case["ddl"]))
@@ -326,6 +344,16 @@ def check_case(ctx, case):
             a, b = sorted(json.dumps(e, sort_keys=True, default=str) for e in grouped), sorted(json.dumps(e, sort_keys=True, default=str) for e in ents)
             if a != b:
                 ctx.violation("grouped_entities_differ_from_flat", case, {"grouped": short(h[1][1], 300), "flat": short(ents, 300)})
+    if n % 4 == 1 and kf is None:
+        # the same declaration read with normalize_names=True: the same entities with one pair of delimiters removed from every name
+        rn = parse(case["ddl"], {"normalize_names": True})
+        ctx.evaluated()
+        ctx.obs["normalize_names_pairs"] += 1
+        want = strip_names(json.loads(json.dumps(r[1])))
+        if rn[0] != "ok" or json.loads(json.dumps(rn[1])) != want:
+            d = ddiff(json.loads(json.dumps(rn[1])), want)[:4] if rn[0] == "ok" else None
+            ctx.violation("normalize_names_changes_more_than_delimiters", dict(case, ctor={"normalize_names": True}),
+                          {"diffs": [(q, short(x, 120), short(y, 120)) for q, x, y in d] if d else short(rn, 200)})
     if len(ents) != len(plan):
         ctx.violation("entity_count:" + case["entity_kind"], case, {"observed": len(ents), "expected": len(plan), "result": short(ents, 400)},
                       kf=kf if kf == "C18:domain-without-size" else None)
